@@ -466,10 +466,10 @@ def eng_paging_walks(ctx):
 
 
 def eng_capacity(ctx):
-    backlogs = [0, 1, 2, 999, 1000, 1001] if not ctx.thorough else [0, 1, 2, 999, 1000, 1001, 1500, 65535, 65536, 65541]
-    maxes = [1, 2, 1000, 1001, 65535, 65536, 65537, 131072, 2147483647]
+    backlogs = [0, 1, 2, 999, 1000, 1001, 1500] if not ctx.thorough else [0, 1, 2, 999, 1000, 1001, 1500, 2500, 65535, 65536, 65541]
+    maxes = [1, 2, 1000, 1001, 1400, 65535, 65536, 65537, 131072, 2147483647]
     if ctx.thorough:
-        maxes += [3, 999, 5000, 196608, 0, -1]
+        maxes += [3, 999, 2000, 5000, 196608, 0, -1]
     # the extracted model handles a batch of n messages in O(n^2) (sorted association lists): backlogs beyond the
     # 16-bit range meet only the limits that keep the batch small, plus one 5000-message batch
     small = [b for b in backlogs if b < 60000]
@@ -484,8 +484,8 @@ def eng_capacity(ctx):
                   always_monitor=True)
     if out:
         return out
-    smax = [0, 1, 2, 1000, 1001, 65535, 65536, -1, 2147483647]
-    cases = seeded(gen.stream_capacity_cases([0, 1, 5, 1001] if not ctx.thorough else [0, 1, 5, 1001, 2500], smax))
+    smax = [0, 1, 2, 1000, 1001, 1400, 65535, 65536, -1, 2147483647]
+    cases = seeded(gen.stream_capacity_cases([0, 1, 5, 1001, 1500] if not ctx.thorough else [0, 1, 5, 1001, 1500, 2500], smax))
     return ctx.seq("stream-capacity", cases, relevant={"SO", "SR", "STATS"}, triggers={"SR"}, monitor=M.mon_batch)
 
 
@@ -832,6 +832,8 @@ def gen_fc_three_party(rng, i):
     maxm, maxb = rng.choice([(5, 16), (2, 8), (3, 1)])
     by_bytes = rng.random() < 0.6 and maxb > 1
     im, ib = (1, maxb - 1) if by_bytes else (maxm - 1, 0)
+    if i % 3 == 0:
+        im, ib = 0, 0            # a dec that runs before its inc wraps the counter: full until the inc lands
     delta = "1 0" if by_bytes else "0 1"
     th = ["T W"] * rng.choice([1, 1, 2]) + ["T I " + delta, "T D " + delta]
     rng.shuffle(th)
@@ -1115,7 +1117,8 @@ reg("C12", [eng_delete_release, eng_wait_random(M.mon_release, {"DS"}), eng_burs
 # ================================================================= C16 abandoned requests
 
 def eng_abandon(ctx):
-    specs = gen.abandon_cases() if ctx.thorough else gen.abandon_cases(ks=(1, 2, 4), ys=(0, 2), fills=(0, 20))
+    specs = gen.abandon_cases(fills=(0, 16, 24, 60, 200)) if ctx.thorough else \
+        gen.abandon_cases(ks=(1, 2, 4), ys=(0, 2), fills=(0, 20, 60))
     tag = "C16-abandon"
     d = workdir(tag)
     impl_cases = [(cid, ops) for cid, ops, idx, eq in specs]
@@ -1133,7 +1136,7 @@ def eng_abandon(ctx):
     s = st["streams"].setdefault("abandon", {"cases": 0, "dropped": 0, "completed_anyway": 0, "as_if_never": 0,
                                               "as_if_completed": 0, "by_kind": {}})
     s["cases"] += len(specs)
-    out = []
+    out, hits = [], []
     for cid, ops, idx, eq in specs:
         res = impl.get(cid, ["<no result>"])
         xc = res[idx] if idx < len(res) else "?"
@@ -1159,9 +1162,9 @@ def eng_abandon(ctx):
         if good:
             st["traces"] += 1
             continue
-        if len(out) >= 3:
-            continue
         why = M.mon_abandon(ops, res) or M.mon_exclusive(ops, res)
+        if (why and len(hits) >= 3) or (not why and len(out) >= 3):
+            continue
         first = next((i for i in range(min(len(res), len(ma))) if i != idx and
                       norm_for(ops[i], res[i]) != norm_for(ops[i], ma[i]) and
                       (i >= len(mb) or norm_for(ops[i], res[i]) != norm_for(ops[i], mb[i]))), None)
@@ -1174,10 +1177,11 @@ def eng_abandon(ctx):
                              "api_step (completed) nor the unchanged state (never received) of Deltio.Model.Server"}
         if why:
             payload.update({"failing_input_found": True, "monitor": why, "signature": "monitor:" + why.split(":")[0]})
-            out.append(("violation", "abandon: " + why, payload))
+            hits.append(("violation", "abandon: " + why, payload))
         else:
             payload.update({"failing_input_found": False, "signature": "correspondence:abandon"})
             out.append(("correspondence", "abandon: case %s matches neither outcome" % cid, payload))
+    out = hits + out          # concrete failing inputs first
     if specs:
         cid, ops, idx, eq = specs[len(specs) // 2]
         st["samples"].append({"stream": "abandon", "case": cid, "ops": [decode_line(o)[:160] for o in ops[:12]],
